@@ -207,18 +207,17 @@ Section Proofs.
     intros E'. rewrite E'. auto.
   Qed.
 
-  (** invariant of the logical state, relative to the configuration [cfg]
-      and recording the metadata: [keep] tells whether the metadata list is
-      known to be [md] *)
-  Definition linv (cfg : config) (l : lstate) : Prop :=
-    l_cfg l = cfg /\ cols_ok (cf_encrypted cfg) (cf_cols cfg) (l_cols l).
+  (** invariant of the logical state: the construction-time part is that of
+      the configuration [cfg] and of the configured metadata [md] *)
+  Definition linv (cfg : config) (md : list (N * N)) (l : lstate) : Prop :=
+    l_cfg l = cfg /\ l_cfgmd l = md /\ cols_ok (cf_encrypted cfg) (cf_cols cfg) (l_cols l).
 
-  Lemma lflush_core_inv : forall cfg f l slot, linv cfg l ->
-    linv cfg (fst (lflush_core f l slot)) /\ l_md (fst (lflush_core f l slot)) = l_md l.
+  Lemma lflush_core_inv : forall cfg md f l slot, linv cfg md l -> linv cfg md (fst (lflush_core f l slot)).
   Proof.
-    intros cfg f l slot (Hc & Hk). unfold Model.lflush_core.
-    destruct (l_cols l) as [|c0 ct] eqn:Ecols; [cbn; repeat split; auto; now rewrite Ecols|].
-    destruct (a_numrows (c_acc c0) + nlen (a_buffer (c_acc c0)) =? 0); [cbn; repeat split; auto; now rewrite Ecols|].
+    intros cfg md f l slot (Hc & Hm & Hk). unfold Model.lflush_core.
+    destruct (l_cols l) as [|c0 ct] eqn:Ecols; [cbn; repeat split; try assumption; rewrite Ecols; apply Hk|].
+    destruct (a_numrows (c_acc c0) + nlen (a_buffer (c_acc c0)) =? 0);
+      [cbn; repeat split; try assumption; rewrite Ecols; apply Hk|].
     rewrite <- Ecols in *. rewrite Hc.
     set (cols1 := map _ (l_cols l)).
     assert (K1 : cols_ok (cf_encrypted cfg) (cf_cols cfg) cols1).
@@ -230,18 +229,16 @@ Section Proofs.
     destruct (emit_blooms _ _ _ _ _) as [[bevs ms'] off3].
     assert (K2 : forall o, cols_ok (cf_encrypted cfg) (cf_cols cfg) (map (col_next_rg (cf_encrypted cfg) o) cols1)).
     { intros o. apply cols_ok_map; [|exact K1]. intros c Hcok. apply col_next_rg_ok, Hcok. }
-    destruct (l_broken l); [|destruct f]; cbn; repeat split; auto; apply K2.
+    destruct (l_broken l); [|destruct f]; cbn; (split; [reflexivity|split; [assumption|apply K2]]).
   Qed.
 
-  Definition pinv (cfg : config) (md : option (list (N * N))) (p : lstate * list capslot) : Prop :=
-    linv cfg (fst p) /\ match md with Some m => l_md (fst p) = m | None => True end.
+  Definition pinv (cfg : config) (md : list (N * N)) (p : lstate * list capslot) : Prop := linv cfg md (fst p).
 
   Lemma lflush_pinv : forall cfg md f p, pinv cfg md p -> pinv cfg md (lflush f p).
   Proof.
-    intros cfg md f [l c] (Hi & Hm). cbn in *. unfold Model.lflush. cbn [fst snd].
-    destruct (lflush_core_inv cfg f l (hd slot_zero c) Hi) as (A & B).
-    destruct (lflush_core f l (hd slot_zero c)) as [l' u]. cbn in *.
-    split; [exact A|]. destruct md; [congruence|exact I].
+    intros cfg md f [l c] Hi. unfold pinv in *. cbn in Hi. unfold Model.lflush. cbn [fst snd].
+    pose proof (lflush_core_inv cfg md f l (hd slot_zero c) Hi) as A.
+    destruct (lflush_core f l (hd slot_zero c)) as [l' u]. exact A.
   Qed.
 
   Lemma lwrite_pinv : forall cfg md fuel p rows, pinv cfg md p -> pinv cfg md (lwrite fuel p rows).
@@ -250,111 +247,92 @@ Section Proofs.
     destruct rows as [|r rt]; [assumption|].
     destruct (_ =? 0).
     - apply IH, lflush_pinv, H.
-    - apply IH. destruct H as ((Hc & Hk) & Hm). split; [split|]; cbn; auto.
+    - apply IH. destruct H as (Hc & Hm & Hk). split; [|split]; cbn; auto.
       rewrite Hc. apply cols_ok_map; [|exact Hk]. intros c Hcok. apply col_write_ok, Hcok.
   Qed.
 
-  Lemma lheader_linv : forall cfg l, linv cfg l -> linv cfg (lheader l) /\ l_md (lheader l) = l_md l.
-  Proof. intros cfg l H. unfold lheader. destruct (l_off l =? 0); cbn; auto. Qed.
+  Lemma lheader_linv : forall cfg md l, linv cfg md l -> linv cfg md (lheader l).
+  Proof. intros cfg md l H. unfold lheader. destruct (l_off l =? 0); cbn; auto. Qed.
 
   Lemma lclose_pinv : forall cfg md p, pinv cfg md p -> pinv cfg md (lclose p).
   Proof.
-    intros cfg md [l c] ((Hc & Hk) & Hm). cbn in *. unfold Model.lclose. cbn [fst snd].
+    intros cfg md [l c] (Hc & Hm & Hk). unfold pinv in *. cbn in *. unfold Model.lclose. cbn [fst snd].
     set (l0 := set_cols_numrows l _ _).
-    assert (H0 : pinv cfg md (l0, c)).
-    { split; [split|]; cbn; auto. rewrite Hc.
+    assert (H0 : linv cfg md l0).
+    { split; [|split]; cbn; auto. rewrite Hc.
       apply cols_ok_map; [|exact Hk]. intros x Hx. apply col_flush_page_ok, Hx. }
     destruct (l_broken l0 && (l_off l0 =? 0)); [exact H0|].
     assert (H1 : pinv cfg md (lflush None (lheader l0, c))).
-    { apply lflush_pinv. destruct H0 as (A & B). cbn in *.
-      destruct (lheader_linv cfg l0 A) as (A' & B'). split; cbn; [exact A'|].
-      destruct md; [congruence|exact I]. }
+    { apply lflush_pinv. apply lheader_linv, H0. }
     destruct (lflush None (lheader l0, c)) as [l1 c1].
     destruct (l_broken l1); [exact H1|].
     destruct (emit_cindexes _ _ _ _) as [[cevs rgs1] off1].
     destruct (emit_oindexes _ _ _ _) as [[oevs rgs2] off2].
-    destruct H1 as ((A & B) & C). cbn in *. split; [split|]; cbn; auto.
+    destruct H1 as (A & B & C). cbn in *. split; [|split]; cbn; auto.
   Qed.
 
-  Lemma lreset_linv : forall cfg l, linv cfg l -> linv cfg (lreset l) /\ l_md (lreset l) = l_md l.
+  Lemma lreset_linv : forall cfg md l, linv cfg md l -> linv cfg md (lreset l).
   Proof.
-    intros cfg l (Hc & Hk). split; [split|]; cbn; auto.
-    apply cols_ok_map; [|exact Hk]. intros c Hcok. apply col_reset_ok, Hcok.
+    intros cfg md l (Hc & Hm & Hk). split; [|split]; cbn; auto. rewrite Hc.
+    apply cols_ok_map; [|exact Hk]. intros c Hcok.
+    destruct (col_reset_ok _ c Hcok) as (A & B).
+    destruct (set_ordinal_ok (cf_encrypted cfg) 0 _ A) as (C & D). split; [exact C|congruence].
   Qed.
 
-  Definition is_setkv (o : op) : bool := match o with SetKV _ _ => true | _ => false end.
-
-  (* [md = None]: no claim about the metadata; [Some m]: it stays [m] as long
-     as no SetKV happens *)
-  Lemma lstep_pinv : forall cfg md o p, (md <> None -> is_setkv o = false) ->
-    pinv cfg md p -> pinv cfg md (lstep_gen lreset p o).
+  Lemma lstep_pinv : forall cfg md o p, pinv cfg md p -> pinv cfg md (lstep_gen lreset p o).
   Proof.
-    intros cfg md o p Hkv H. destruct o; cbn.
+    intros cfg md o p H. destruct o; cbn.
     - apply lwrite_pinv, H.
     - apply lflush_pinv, H.
     - apply lclose_pinv, H.
-    - destruct H as (A & B). destruct (lreset_linv cfg (fst p) A) as (A' & B').
-      split; cbn; [exact A'|]. destruct md; [congruence|exact I].
+    - apply lreset_linv, H.
     - apply lflush_pinv, lwrite_pinv, H.
     - exact H.
     - apply lflush_pinv, lwrite_pinv, lflush_pinv, H.
-    - destruct md as [m|]; [cbn in Hkv; assert (true = false) by (apply Hkv; discriminate); discriminate|].
-      destruct H as ((A & B) & _). split; [split|]; cbn; auto.
+    - destruct H as (A & B & C). split; [|split]; cbn; auto.
   Qed.
 
-  Definition sinv (cfg : config) (md : option (list (N * N))) (s : state) : Prop :=
-    pinv cfg md (st_l s, st_caps s).
+  Definition sinv (cfg : config) (md : list (N * N)) (s : state) : Prop := linv cfg md (st_l s).
 
-  Lemma step_sinv : forall cfg md o s, (md <> None -> is_setkv o = false) ->
-    sinv cfg md s -> sinv cfg md (step s o).
+  Lemma step_sinv : forall cfg md o s, sinv cfg md s -> sinv cfg md (step s o).
   Proof.
-    intros cfg md o s Hkv H. unfold sinv, Model.step, Model.step_gen.
-    pose proof (lstep_pinv cfg md o (st_l s, st_caps s) Hkv H) as P.
+    intros cfg md o s H. unfold sinv, Model.step, Model.step_gen.
+    pose proof (lstep_pinv cfg md o (st_l s, st_caps s) H) as P.
     destruct (lstep_gen lreset (st_l s, st_caps s) o). exact P.
   Qed.
 
-  Lemma run_sinv : forall cfg md ops s, (md <> None -> forallb is_setkv ops = false \/ existsb is_setkv ops = false) ->
-    (md <> None -> existsb is_setkv ops = false) ->
-    sinv cfg md s -> sinv cfg md (run s ops).
+  Lemma run_sinv : forall cfg md ops s, sinv cfg md s -> sinv cfg md (run s ops).
   Proof.
-    intros cfg md ops. induction ops as [|o t IH]; intros s _ Hkv H; cbn; [assumption|].
-    apply IH.
-    - intros Hm. right. specialize (Hkv Hm). cbn in Hkv. apply orb_false_iff in Hkv. apply Hkv.
-    - intros Hm. specialize (Hkv Hm). cbn in Hkv. apply orb_false_iff in Hkv. apply Hkv.
-    - apply step_sinv; [|exact H]. intros Hm. specialize (Hkv Hm). cbn in Hkv. apply orb_false_iff in Hkv. apply Hkv.
+    intros cfg md ops. induction ops as [|o t IH]; intros s H; cbn; [assumption|].
+    apply IH, step_sinv, H.
   Qed.
 
-  Lemma init_sinv : forall cfg md, sinv cfg (Some md) (init cfg md).
+  Lemma init_sinv : forall cfg md, sinv cfg md (init cfg md).
   Proof.
-    intros cfg md. split; [split|]; cbn; auto. split.
+    intros cfg md. split; [|split]; cbn; auto. split.
     - apply Forall_map. apply Forall_forall. intros cc _. repeat split.
     - rewrite map_map. cbn. apply map_id.
   Qed.
 
-  Lemma sinv_weaken : forall cfg md s, sinv cfg md s -> sinv cfg None s.
-  Proof. intros cfg md s (A & _). split; [exact A|exact I]. Qed.
-
-  (** reset returns every logical field to its initial value (the metadata is
-      carried; the ordinal is only cleared because it was never assigned) *)
-  Lemma col_reset_init : forall c, col_ok false c -> col_reset c = col_init (c_cfg c).
+  (** reset returns every logical field to its initial value *)
+  Lemma col_reset_init : forall e c, col_ok e c -> set_ordinal e 0 (col_reset c) = col_init (c_cfg c).
   Proof.
-    intros [cc p en sw o a] (Hp & He & Ho). cbn in *. unfold col_init. cbn.
-    rewrite Hp, (Ho eq_refl). f_equal. destruct sw; auto.
+    intros e [cc p en sw o a] (Hp & He & Ho). cbn in *. unfold col_init. cbn.
+    rewrite Hp. f_equal.
+    - destruct sw; auto.
+    - destruct e; auto.
   Qed.
 
-  Lemma lreset_init : forall cfg l, cf_encrypted cfg = false -> linv cfg l ->
-    lreset l = linit cfg (l_md l).
+  Lemma lreset_init : forall cfg md l, linv cfg md l -> lreset l = linit cfg md.
   Proof.
-    intros cfg l He (Hc & HF & HM). unfold lreset, lreset_with, linit. rewrite Hc. f_equal.
+    intros cfg md l (Hc & Hm & HF & HM). unfold lreset, lreset_with, linit. rewrite Hc, Hm. f_equal.
     rewrite <- HM, map_map. apply map_ext_in. intros c Hin.
-    apply col_reset_init. rewrite Forall_forall in HF. rewrite <- He. auto.
+    apply col_reset_init. rewrite Forall_forall in HF. auto.
   Qed.
 
-  Lemma reset_sim_init : forall cfg md s, cf_encrypted cfg = false ->
-    sinv cfg md s -> caps_ok (st_caps s) ->
-    sim (reset s) (init cfg (l_md (st_l s))).
+  Lemma reset_sim_init : forall cfg md s, sinv cfg md s -> caps_ok (st_caps s) -> sim (reset s) (init cfg md).
   Proof.
-    intros cfg md s He (Hi & _) Hc. cbn in Hi.
+    intros cfg md s Hi Hc.
     unfold Model.reset, Model.step, Model.step_gen. cbn.
     split; [|split]; cbn.
     - apply lreset_init; assumption.
@@ -362,45 +340,30 @@ Section Proofs.
     - constructor.
   Qed.
 
-  (** MAIN: whatever the previous life did, after Reset the writer behaves as
-      a fresh writer constructed with the metadata it carries *)
-  Theorem reset_equiv_init_carried : forall cfg md h ops,
-    cf_encrypted cfg = false ->
-    let s := run (init cfg md) h in
-    observe (run (reset s) ops) = observe (run (init cfg (l_md (st_l s))) ops).
-  Proof.
-    intros cfg md h ops He s. apply sim_observe, run_sim.
-    apply (reset_sim_init cfg None); [exact He| |].
-    - subst s. apply run_sinv; try (intros C; contradiction C; reflexivity).
-      apply (sinv_weaken cfg (Some md)), init_sinv.
-    - subst s. apply run_caps_ok. constructor.
-  Qed.
-
-  Lemma run_md : forall cfg md h, existsb is_setkv h = false ->
-    l_md (st_l (run (init cfg md) h)) = md.
-  Proof.
-    intros cfg md h Hh.
-    assert (S : sinv cfg (Some md) (run (init cfg md) h)).
-    { apply run_sinv; [intros _; right; exact Hh|intros _; exact Hh|apply init_sinv]. }
-    destruct S as (_ & M). exact M.
-  Qed.
-
-  (** ... and when the previous life did not call SetKeyValueMetadata, exactly
-      as the fresh writer *)
+  (** MAIN: whatever the previous life did (any operations, failed or
+      abandoned content, dictionary fallback, SetKeyValueMetadata), after
+      Reset the writer behaves as a fresh writer *)
   Theorem reset_equiv_init : forall cfg md h ops,
-    cf_encrypted cfg = false -> existsb is_setkv h = false ->
     observe (run (reset (run (init cfg md) h)) ops) = observe (run (init cfg md) ops).
   Proof.
-    intros cfg md h ops He Hh.
-    rewrite (reset_equiv_init_carried cfg md h ops He). cbv zeta.
-    now rewrite (run_md cfg md h Hh).
+    intros cfg md h ops. apply sim_observe, run_sim, reset_sim_init.
+    - apply run_sinv, init_sinv.
+    - apply run_caps_ok. constructor.
   Qed.
 
   (** the same for the bytes, whatever the serialisation of the events *)
   Corollary reset_equiv_init_bytes : forall B (ser : event -> list B) cfg md h ops,
-    cf_encrypted cfg = false -> existsb is_setkv h = false ->
     observe_bytes ser (run (reset (run (init cfg md) h)) ops) = observe_bytes ser (run (init cfg md) ops).
   Proof. intros. unfold observe_bytes. now rewrite reset_equiv_init. Qed.
+
+  (** Reset in the middle of a history: the operations before the last Reset do not matter *)
+  Corollary history_before_reset_irrelevant : forall cfg md h1 h2 ops,
+    observe (run (init cfg md) (h1 ++ Reset :: ops)) = observe (run (init cfg md) (h2 ++ Reset :: ops)).
+  Proof.
+    intros. unfold Model.run. rewrite !fold_left_app. cbn [fold_left].
+    change (observe (run (reset (run (init cfg md) h1)) ops) = observe (run (reset (run (init cfg md) h2)) ops)).
+    now rewrite !reset_equiv_init.
+  Qed.
 End Proofs.
 
 (** ---------- key/value metadata ---------- *)
